@@ -193,4 +193,10 @@ theorem backward_tie (A : Analysis D) (g : Graph) (univ : D) (ctx1 : Nat → D) 
   rw [h0]
   exact bwd_loop_tie A g univ ctx1 pc E key g.keys _ _ _
 
+/-- `_update_gtxn_constraints` (one entry of its double loop) = the model's `updateGtxn` used by `runAnalysis` -/
+theorem update_gtxn_tie (A : Analysis D) (gi : List Nat) (i : Nat) (v base : D) :
+    Generated.updateGtxnConstraints A.dom gi i v base = updateGtxn A gi i v base := by
+  unfold Generated.updateGtxnConstraints updateGtxn
+  by_cases h : gi.contains i = true <;> simp [Id.run, h] <;> rfl
+
 end Tealer.TieW
